@@ -231,6 +231,317 @@ example (cfg : Config) (txt : String) (c : Circuit) (h : parseProgram cfg txt = 
   obtain ⟨sx, _, hl, hf, hb⟩ := C01_sxLegal_of_parsed cfg txt c h
   exact C01_roundtrip_builder_any cfg _ c hl hf hb hi
 
+
+/-! ## the hypotheses are needed
+
+Each input below was also handed to the REAL `jaqalpaq.core.circuitbuilder.build`, `generate_jaqal_program` and
+`parse_jaqal_string(…, autoload_pulses=False)` (`/venv/bin/python`); the outcome is quoted in the comment.  In the model
+everything is evaluated by the kernel. -/
+
+/-- the conclusion of C01 for one circuit -/
+def RoundTrips (cfg : Config) (c : Circuit) : Prop :=
+  ∃ t c', gen c = .ok t ∧ parseProgram cfg t = .ok c' ∧ circuitEq c c' = true ∧ gen c' = .ok t
+
+/-- evaluated: `e` builds to an `IntsBounded` circuit whose generated text is `txt`, and the parser refuses `txt` -/
+def textRefused (e : BSx) (txt : String) : Bool :=
+  match (build {} e).bind tooManyRegisters with
+  | .ok c =>
+    decide (IntsBounded c) && decide (gen c = .ok txt) &&
+      (match parseProgram {} txt with
+       | .error _ => true
+       | .ok _ => false)
+  | .error _ => false
+
+theorem not_roundTrips_of_textRefused {e : BSx} {txt : String} (h : textRefused e txt = true) :
+    ∃ c, (build {} e).bind tooManyRegisters = .ok c ∧ IntsBounded c ∧ gen c = .ok txt ∧
+      (∃ err, parseProgram {} txt = .error err) ∧ ¬ RoundTrips {} c := by
+  unfold textRefused at h
+  cases hb : (build {} e).bind tooManyRegisters with
+  | error err => rw [hb] at h; cases h
+  | ok c =>
+    rw [hb] at h
+    simp only [Bool.and_eq_true, decide_eq_true_eq] at h
+    obtain ⟨⟨hi, hg⟩, hp⟩ := h
+    cases hpp : parseProgram {} txt with
+    | ok c' => rw [hpp] at hp; cases hp
+    | error err =>
+      refine ⟨c, rfl, hi, hg, ⟨err, rfl⟩, ?_⟩
+      rintro ⟨t, c', hg', hp', _⟩
+      rw [hg] at hg'
+      cases hg'
+      rw [hpp] at hp'
+      cases hp'
+
+/-- evaluated: `e` builds to an `IntsBounded` circuit for which the generator raises -/
+def genFails (e : BSx) : Bool :=
+  match (build {} e).bind tooManyRegisters with
+  | .ok c =>
+    decide (IntsBounded c) &&
+      (match gen c with
+       | .error _ => true
+       | .ok _ => false)
+  | .error _ => false
+
+theorem not_roundTrips_of_genFails {e : BSx} (h : genFails e = true) :
+    ∃ c, (build {} e).bind tooManyRegisters = .ok c ∧ IntsBounded c ∧ (∃ err, gen c = .error err) ∧
+      ¬ RoundTrips {} c := by
+  unfold genFails at h
+  cases hb : (build {} e).bind tooManyRegisters with
+  | error err => rw [hb] at h; cases h
+  | ok c =>
+    rw [hb] at h
+    simp only [Bool.and_eq_true, decide_eq_true_eq] at h
+    obtain ⟨hi, hg⟩ := h
+    cases hgg : gen c with
+    | ok t => rw [hgg] at hg; cases hg
+    | error err =>
+      refine ⟨c, rfl, hi, ⟨err, hgg⟩, ?_⟩
+      rintro ⟨t, c', hg', _⟩
+      rw [hgg] at hg'
+      cases hg'
+
+/-- the number of statements of the block that is the only statement of the only top-level block -/
+def innerLen (c : Circuit) : Option Nat :=
+  match c.body with
+  | .block _ _ _ [.block _ _ _ b] => some b.length
+  | _ => none
+
+theorem innerLen_eq {a b : Circuit} (h : circuitEq a b = true) {m n : Nat} (ha : innerLen a = some m)
+    (hb : innerLen b = some n) : m = n := by
+  have hbody := (C20.C20_discriminates_circuit h).2.2.2.2.1
+  unfold innerLen at ha hb
+  split at ha
+  · rename_i p q i p2 q2 i2 b2 hab
+    split at hb
+    · rename_i p' q' i' p2' q2' i2' b2' hbb
+      rw [hab, hbb] at hbody
+      have h1 := (C20.C20_discriminates_block hbody).2.2.2.2
+      have h2 : stmtEq (.block p2 q2 i2 b2) (.block p2' q2' i2' b2') = true :=
+        C20.C20_discriminates_statement (pre := []) (pre' := []) (post := []) (post' := []) rfl h1
+      have h3 := (C20.C20_discriminates_block h2).2.2.2.1
+      simp only [Option.some.injEq] at ha hb
+      omega
+    · cases hb
+  · cases ha
+
+/-- evaluated: `e` builds to an `IntsBounded` circuit whose text `txt` is accepted, generates `txt` again, but parses to a
+circuit that is not `==` to the built one (the inner blocks have `m ≠ n` statements) -/
+def eqRefused (e : BSx) (txt : String) (m n : Nat) : Bool :=
+  match (build {} e).bind tooManyRegisters with
+  | .ok c =>
+    decide (IntsBounded c) && decide (gen c = .ok txt) && decide (innerLen c = some m) && decide (m ≠ n) &&
+      (match parseProgram {} txt with
+       | .ok c' => decide (innerLen c' = some n) && decide (gen c' = .ok txt)
+       | .error _ => false)
+  | .error _ => false
+
+theorem not_roundTrips_of_eqRefused {e : BSx} {txt : String} {m n : Nat} (h : eqRefused e txt m n = true) :
+    ∃ c c', (build {} e).bind tooManyRegisters = .ok c ∧ IntsBounded c ∧ gen c = .ok txt ∧
+      parseProgram {} txt = .ok c' ∧ gen c' = .ok txt ∧ circuitEq c c' = false ∧ ¬ RoundTrips {} c := by
+  unfold eqRefused at h
+  cases hb : (build {} e).bind tooManyRegisters with
+  | error err => rw [hb] at h; cases h
+  | ok c =>
+    rw [hb] at h
+    simp only [Bool.and_eq_true, decide_eq_true_eq] at h
+    obtain ⟨⟨⟨⟨hi, hg⟩, hm⟩, hne⟩, hp⟩ := h
+    cases hpp : parseProgram {} txt with
+    | error err => rw [hpp] at hp; cases hp
+    | ok c' =>
+      rw [hpp] at hp
+      simp only [Bool.and_eq_true, decide_eq_true_eq] at hp
+      have hneq : circuitEq c c' = false := by
+        cases hq : circuitEq c c' with
+        | false => rfl
+        | true => exact absurd (innerLen_eq hq hm hp.1) hne
+      refine ⟨c, c', rfl, hi, hg, rfl, hp.2, hneq, ?_⟩
+      rintro ⟨t, c'', hg', hp', he, _⟩
+      rw [hg] at hg'
+      cases hg'
+      rw [hpp] at hp'
+      cases hp'
+      rw [hneq] at he
+      cases he
+
+def gateG : BSx := .list [.str "gate", .str "g"]
+def gateH : BSx := .list [.str "gate", .str "h"]
+
+/-- **"legal identifiers" is needed** (1): `build(("circuit", ("register", "a b", 2), ("gate", "g", ("array_item", "a b", 0))))`
+is accepted — the builder does not look at the characters of a name — and written verbatim; the text does not parse.
+Real code: text `'register a b[2]\n\ng a b[0]\n'`, then `JaqalParseError <string>:1:12: error: At token b`. -/
+def cxSpace : BSx :=
+  .list [.str "circuit", .list [.str "register", .str "a b", .int 2],
+    .list [.str "gate", .str "g", .list [.str "array_item", .str "a b", .int 0]]]
+
+theorem C01_builder_needs_identifier_space :
+    SxLegal cxSpace = false ∧ textRefused cxSpace "register a b[2]\n\ng a b[0]\n" = true := by decide +kernel
+
+/-- (2) a name that starts with a digit.  Real code: `'register 1x[2]\n\ng 1x[0]\n'`, `JaqalParseError … 1:10: At token 1`. -/
+def cxDigit : BSx :=
+  .list [.str "circuit", .list [.str "register", .str "1x", .int 2],
+    .list [.str "gate", .str "g", .list [.str "array_item", .str "1x", .int 0]]]
+
+theorem C01_builder_needs_identifier_digit :
+    SxLegal cxDigit = false ∧ textRefused cxDigit "register 1x[2]\n\ng 1x[0]\n" = true := by decide +kernel
+
+/-- (3) a keyword as a name: `let loop 2; g loop`.  Real code: `'let loop 2\n\n\ng loop\n'`, `JaqalParseError … 1:5: At token
+loop`.  (This is why `LegalName` has the clause `keyword? n = none`.) -/
+def cxKeyword : BSx :=
+  .list [.str "circuit", .list [.str "let", .str "loop", .int 2], .list [.str "gate", .str "g", .str "loop"]]
+
+theorem C01_builder_needs_identifier_keyword :
+    SxLegal cxKeyword = false ∧ textRefused cxKeyword "let loop 2\n\n\ng loop\n" = true := by decide +kernel
+
+/-- (4) a module name that is not a (dotted) identifier.  Real code: `'from a b usepulses *\n\n\n'`,
+`JaqalParseError … 1:8: At token b`. -/
+def cxModule : BSx := .list [.str "circuit", .list [.str "usepulses", .str "a b", .str "*"]]
+
+theorem C01_builder_needs_module_name :
+    SxLegal cxModule = false ∧ textRefused cxModule "from a b usepulses *\n\n\n" = true := by decide +kernel
+
+/-- **"legal block nesting" is needed** (1): a loop directly inside a parallel block is accepted by the builder and
+written; Jaqal has no such statement.  Real code: `'\n<\n\tloop 2 {\n\t\tg\n\t}\n>\n'`, `JaqalParseError … 3:2: At token loop`. -/
+def cxLoopInPar : BSx :=
+  .list [.str "circuit", .list [.str "parallel_block", .list [.str "loop", .int 2, .list [.str "sequential_block", gateG]]]]
+
+theorem C01_builder_needs_nesting_loop_in_par :
+    SxLegal cxLoopInPar = false ∧ textRefused cxLoopInPar "\n<\n\tloop 2 {\n\t\tg\n\t}\n>\n" = true := by decide +kernel
+
+/-- (2) **a sequential block directly inside a sequential block**: accepted by the builder; the generator splices the
+inner block into the outer one (`{ g ; h }`), so the text is accepted and is a fixed point of generate-and-parse, but the
+re-parsed circuit is NOT `==` to the built one.  Real code: text `'\n{\n\tg\n\th\n}\n'`, `c == parse(text)` is `False`,
+`generate(parse(text)) == text` is `True`. -/
+def cxSeqInSeq : BSx :=
+  .list [.str "circuit", .list [.str "sequential_block", .list [.str "sequential_block", gateG, gateH]]]
+
+theorem C01_builder_needs_nesting_seq_in_seq :
+    SxLegal cxSeqInSeq = false ∧ eqRefused cxSeqInSeq "\n{\n\tg\n\th\n}\n" 1 2 = true := by decide +kernel
+
+/-- (3) a loop whose body is not a block is accepted by `build` (`Loop.__init__` does not look at the body), and the
+generator then fails.  Real code: `generate_jaqal_program` raises `AttributeError: 'GateStatement' object has no
+attribute 'subcircuit'` (not a `JaqalError`). -/
+def cxLoopGate : BSx := .list [.str "circuit", .list [.str "loop", .int 2, gateG]]
+
+theorem C01_builder_needs_nesting_loop_body :
+    SxLegal cxLoopGate = false ∧ genFails cxLoopGate = true := by decide +kernel
+
+/-- **"finite numbers" is needed**: a float beyond the range of a double (`Dec.overflows`; in Python such a literal IS
+`inf`) is accepted by the builder.  Model: written `1.0e+999` and refused by the lexer.  Real code: `build(("circuit",
+("gate", "g", float("inf"))))` is accepted and `generate_jaqal_program` raises `JaqalError: Cannot write non-finite
+number inf in Jaqal` (same for `nan`): no text at all. -/
+def cxInf : BSx := .list [.str "circuit", .list [.str "gate", .str "g", .flt ⟨false, 1, 999⟩]]
+
+theorem C01_builder_needs_finite :
+    SxLegal cxInf = false ∧ textRefused cxInf "\ng 1.0e+999\n" = true := by decide +kernel
+
+/-- the counterexamples, as failures of the conclusion of `C01_roundtrip_builder` -/
+theorem C01_builder_hypotheses_needed :
+    (∀ e ∈ [cxSpace, cxDigit, cxKeyword, cxModule, cxLoopInPar, cxSeqInSeq, cxLoopGate, cxInf],
+      ∃ c, (build {} e).bind tooManyRegisters = .ok c ∧ IntsBounded c ∧ ¬ RoundTrips {} c) := by
+  intro e he
+  simp only [List.mem_cons, List.not_mem_nil, or_false] at he
+  rcases he with rfl | rfl | rfl | rfl | rfl | rfl | rfl | rfl
+  · obtain ⟨c, h1, h2, _, _, h3⟩ := not_roundTrips_of_textRefused C01_builder_needs_identifier_space.2
+    exact ⟨c, h1, h2, h3⟩
+  · obtain ⟨c, h1, h2, _, _, h3⟩ := not_roundTrips_of_textRefused C01_builder_needs_identifier_digit.2
+    exact ⟨c, h1, h2, h3⟩
+  · obtain ⟨c, h1, h2, _, _, h3⟩ := not_roundTrips_of_textRefused C01_builder_needs_identifier_keyword.2
+    exact ⟨c, h1, h2, h3⟩
+  · obtain ⟨c, h1, h2, _, _, h3⟩ := not_roundTrips_of_textRefused C01_builder_needs_module_name.2
+    exact ⟨c, h1, h2, h3⟩
+  · obtain ⟨c, h1, h2, _, _, h3⟩ := not_roundTrips_of_textRefused C01_builder_needs_nesting_loop_in_par.2
+    exact ⟨c, h1, h2, h3⟩
+  · obtain ⟨c, _, h1, h2, _, _, _, _, h3⟩ := not_roundTrips_of_eqRefused C01_builder_needs_nesting_seq_in_seq.2
+    exact ⟨c, h1, h2, h3⟩
+  · obtain ⟨c, h1, h2, _, h3⟩ := not_roundTrips_of_genFails C01_builder_needs_nesting_loop_body.2
+    exact ⟨c, h1, h2, h3⟩
+  · obtain ⟨c, h1, h2, _, _, h3⟩ := not_roundTrips_of_textRefused C01_builder_needs_finite.2
+    exact ⟨c, h1, h2, h3⟩
+
+/-- **The register-count check is needed** (it is part of `parse_jaqal_string`, not of `build`): `build` accepts two
+`register` statements, the text is written, and `parse_jaqal_string` refuses it (`JaqalError: Circuit has too many
+registers: ['r', 's']`).  The S-expression is legal; the hypothesis `(build cfg e).bind tooManyRegisters = .ok c` fails. -/
+def cxTwoRegs : BSx :=
+  .list [.str "circuit", .list [.str "register", .str "r", .int 1], .list [.str "register", .str "s", .int 1]]
+
+theorem C01_builder_needs_one_register :
+    SxLegal cxTwoRegs = true ∧
+    (match build {} cxTwoRegs with
+     | .ok c => decide (gen c = .ok "register r[1]\nregister s[1]\n\n\n")
+     | .error _ => false) = true ∧
+    (match parseProgram {} "register r[1]\nregister s[1]\n\n\n" with
+     | .error (.jaqal r) => r == "too-many-registers"
+     | _ => false) = true := by decide +kernel
+
+/-! ## non-vacuity -/
+
+/-- a builder program that NO text has as its tree — a `let`, two `map`s and a `usepulses` AFTER a gate statement and a
+macro: lets of both kinds, a let-sized register, an index alias and a slice alias, a macro with nested blocks whose
+parameter `a` shadows the let, a loop, subcircuits with and without a count -/
+def exB : BSx :=
+  .list [.str "circuit",
+    .list [.str "let", .str "n", .int 4],
+    .list [.str "register", .str "r", .str "n"],
+    .list [.str "gate", .str "g", .list [.str "array_item", .str "r", .int 0], .flt ⟨false, 15, -1⟩],
+    .list [.str "let", .str "a", .flt ⟨true, 25, -8⟩],
+    .list [.str "map", .str "s", .str "r", .int 0, .str "n", .int 2],
+    .list [.str "macro", .str "m", .str "a", .str "x",
+      .list [.str "sequential_block",
+        .list [.str "gate", .str "g", .str "x", .str "a"],
+        .list [.str "parallel_block",
+          .list [.str "gate", .str "h", .str "x"],
+          .list [.str "sequential_block",
+            .list [.str "gate", .str "h", .list [.str "array_item", .str "s", .int 1]]]]]],
+    .list [.str "map", .str "q", .str "r", .int 1],
+    .list [.str "loop", .int 2,
+      .list [.str "sequential_block",
+        .list [.str "gate", .str "m", .flt ⟨false, 15, -1⟩, .str "q"],
+        .list [.str "subcircuit_block", .int 3,
+          .list [.str "gate", .str "g", .list [.str "array_item", .str "r", .int 0], .str "a"]]]],
+    .list [.str "usepulses", .str "qscout.v1.std", .str "*"],
+    .list [.str "subcircuit_block", .str "",
+      .list [.str "gate", .str "h", .str "q"]]]
+
+/-- the text the generator writes for it, in the model and (checked) in the real code -/
+def exBText : String :=
+  "from qscout.v1.std usepulses *\n\nlet n 4\nlet a -2.5e-07\n\nregister r[n]\n\nmap s r[0:n:2]\nmap q r[1]\n\nmacro m a x {\n\tg x a\n\t<\n\t\th x\n\t\t{\n\t\t\th s[1]\n\t\t}\n\t>\n}\n\ng r[0] 1.5\nloop 2 {\n\tm 1.5 q\n\tsubcircuit 3 {\n\t\tg r[0] a\n\t}\n}\nsubcircuit {\n\th q\n}\n"
+
+/-- evaluated by the kernel: `exB` is legal, its header statements do NOT come first, it builds to an `IntsBounded`
+circuit with text `exBText`, that text is accepted, the re-parsed circuit has the same lets, registers and aliases,
+macro names and number of statements, and generates `exBText` again -/
+theorem exB_evaluated :
+    SxLegal exB = true ∧ headersFirst exB = false ∧
+    (match (build {} exB).bind tooManyRegisters with
+     | .ok c =>
+       decide (IntsBounded c) && decide (gen c = .ok exBText) &&
+         (match parseProgram {} exBText with
+          | .ok c' => decide (gen c' = .ok exBText) && decide (c'.constants = c.constants) &&
+              decide (c'.registers = c.registers) && decide (c'.macros.map (·.name) = c.macros.map (·.name)) &&
+              decide (c'.body.stmts.length = c.body.stmts.length) && decide (c.body.stmts.length = 3)
+          | .error _ => false)
+     | .error _ => false) = true := by decide +kernel
+
+/-- … and the theorems apply to it: the hypotheses of `C01_roundtrip_builder` / `C01_meaning_builder` are satisfiable by a
+program with lets, a register, alias slices, a macro, a loop and a counted subcircuit -/
+example : ∃ c, (build {} exB).bind tooManyRegisters = .ok c ∧ gen c = .ok exBText ∧ parseProgram {} exBText = .ok c ∧
+    circuitEq c c = true ∧ ∀ ρ : Sem.Env, C20.MeaningEq (Sem.meaning ρ c) (Sem.meaning ρ c) := by
+  have h0 := exB_evaluated
+  obtain ⟨hl, _, h0⟩ := h0
+  cases hb : (build {} exB).bind tooManyRegisters with
+  | error err => rw [hb] at h0; cases h0
+  | ok c =>
+    rw [hb] at h0
+    simp only [Bool.and_eq_true, decide_eq_true_eq] at h0
+    obtain ⟨⟨hi, hg⟩, _⟩ := h0
+    obtain ⟨t, hg', hall⟩ := C01_meaning_builder {} exB c rfl hl hb hi
+    obtain ⟨t2, hg2, hp⟩ := C01_builder_parsed {} exB c rfl hl hb hi
+    have ht : t2 = exBText := by rw [hg] at hg2; cases hg2; rfl
+    subst ht
+    have ht' : t = exBText := by rw [hg] at hg'; cases hg'; rfl
+    subst ht'
+    obtain ⟨he, _, hm⟩ := hall c hp
+    exact ⟨c, rfl, hg, hp, he, fun ρ => (hm ρ).2⟩
+
 #print axioms C01_builder_rebuild_exact
 #print axioms C01_builder_facts
 #print axioms C01_builder_lexsafe
@@ -244,5 +555,19 @@ example (cfg : Config) (txt : String) (c : Circuit) (h : parseProgram cfg txt = 
 #print axioms C01_meaning_builder_any
 #print axioms C01_builder_any_order_partial
 #print axioms C01_sxLegal_of_parsed
+#print axioms not_roundTrips_of_textRefused
+#print axioms not_roundTrips_of_genFails
+#print axioms not_roundTrips_of_eqRefused
+#print axioms C01_builder_needs_identifier_space
+#print axioms C01_builder_needs_identifier_digit
+#print axioms C01_builder_needs_identifier_keyword
+#print axioms C01_builder_needs_module_name
+#print axioms C01_builder_needs_nesting_loop_in_par
+#print axioms C01_builder_needs_nesting_seq_in_seq
+#print axioms C01_builder_needs_nesting_loop_body
+#print axioms C01_builder_needs_finite
+#print axioms C01_builder_hypotheses_needed
+#print axioms C01_builder_needs_one_register
+#print axioms exB_evaluated
 
 end Jaqal.C01
